@@ -1,4 +1,6 @@
 import Rpcx.Model.Select
+import Rpcx.Lemmas.Jump
+import Rpcx.Lemmas.ConsistentHash
 /-
   C13: consistent-hash routing is stable and reproducible (theorems about the doublejump
   model, which `harness c13` ties to the real selector with the real jump hash).
@@ -10,9 +12,11 @@ import Rpcx.Model.Select
   * `new_perm`: two selectors constructed from the same set agree whatever the order in
     which the set was enumerated (every map iteration order) – this is the theorem that
     was FALSE before the fix (servers were added while ranging over the map; witness below).
-  * monotonicity under pure additions is checked against the implementation by the harness
-    (add-only histories, 200 keys each) and on the model by differential runs; it is not yet
-    a theorem (it needs the jump-hash step property as a hypothesis).
+  * `update_monotone`, `updates_monotone`: under pure additions – one update or any sequence of
+    them, starting from a constructed selector – every key keeps its server or moves to a server
+    that was not there before.  The only hypothesis is the contract of jump consistent hash
+    (`JumpOK`: a bucket below n; growing n by one keeps the bucket or moves the key to the new
+    one), which the harness checks on the real `jump.Hash`.
 -/
 namespace Rpcx.Props.C13
 open Rpcx Rpcx.Sel
@@ -117,6 +121,136 @@ theorem new_perm {keys keys' : List String} (h : keys.Perm keys') : CH.new keys 
 theorem instances_agree (jh : Nat → Nat → Nat) {keys keys' : List String} (h : keys.Perm keys') (key : Nat) :
     CH.select jh (CH.new keys) key = CH.select jh (CH.new keys') key := by
   rw [new_perm h]
+
+
+/-! ### monotonicity under pure additions -/
+
+/-- what every selector state reachable by construction and additive updates satisfies: the free
+    list of the holder is sound and every current server is in both holders -/
+def CHInv (c : CH) : Prop := c.h.WF ∧ c.h.Has c.servers
+
+theorem mem_sortStr (keys : List String) (k : String) : k ∈ sortStr keys ↔ k ∈ keys :=
+  (sortStr_perm keys).mem_iff
+
+theorem inv_new (keys : List String) : CHInv (CH.new keys) := by
+  obtain ⟨a, _, c⟩ := fold_add_inv (sortStr keys) DJ.empty [] wf_empty (by intro k hk; cases hk)
+  exact ⟨a, c⟩
+
+/-- an update that only adds servers removes nothing from the holder -/
+theorem update_additive (c : CH) (keys : List String) (hsub : ∀ k ∈ c.servers, k ∈ keys) :
+    (c.update keys).h = (sortStr keys).foldl DJ.add c.h := by
+  have hf : (c.servers.filter (fun k => !(sortStr keys).contains k)) = [] := by
+    apply List.filter_eq_nil_iff.mpr
+    intro a ha
+    have : a ∈ sortStr keys := (mem_sortStr keys a).mpr (hsub a ha)
+    simp [this]
+  simp only [CH.update, hf, List.foldl_nil]
+
+theorem inv_update_additive (c : CH) (hc : CHInv c) (keys : List String) (hsub : ∀ k ∈ c.servers, k ∈ keys) :
+    CHInv (c.update keys) := by
+  obtain ⟨a, _, d⟩ := fold_add_inv (sortStr keys) c.h c.servers hc.1 hc.2
+  refine ⟨by rw [update_additive c keys hsub]; exact a, ?_⟩
+  rw [update_additive c keys hsub]
+  exact d
+
+/-- **Monotone under addition**: when an update only adds servers, a key either keeps its server or
+    moves to one of the new servers. -/
+theorem update_monotone (jh : Nat → Nat → Nat) (hj : JumpOK jh) (c : CH) (hc : CHInv c) (keys : List String)
+    (hsub : ∀ k ∈ c.servers, k ∈ keys) (key : Nat) :
+    (c.update keys).h.get jh key = c.h.get jh key ∨
+    ∃ s ∈ keys, s ∉ c.servers ∧ (c.update keys).h.get jh key = some s := by
+  rw [update_additive c keys hsub]
+  rcases fold_add_mono jh hj c.servers key (sortStr keys) c.h hc.1 hc.2 with h | ⟨s, hs, hn, hv⟩
+  · left; exact h
+  · right; exact ⟨s, (mem_sortStr keys s).mp hs, hn, hv⟩
+
+/-- a sequence of updates, each a superset of the set before it -/
+def Additive : CH → List (List String) → Prop
+  | _, [] => True
+  | c, keys :: rest => (∀ k ∈ c.servers, k ∈ keys) ∧ Additive (c.update keys) rest
+
+theorem updates_monotone (jh : Nat → Nat → Nat) (hj : JumpOK jh) (key : Nat) :
+    ∀ (us : List (List String)) (c : CH), CHInv c → Additive c us →
+      (us.foldl CH.update c).h.get jh key = c.h.get jh key ∨
+      ∃ s, s ∉ c.servers ∧ s ∈ (us.foldl CH.update c).servers ∧ (us.foldl CH.update c).h.get jh key = some s := by
+  intro us
+  induction us with
+  | nil => intro c _ _; left; rfl
+  | cons keys rest ih =>
+    intro c hc ha
+    obtain ⟨hsub, har⟩ := ha
+    have hc1 := inv_update_additive c hc keys hsub
+    have grow : ∀ (us : List (List String)) (c : CH), Additive c us → ∀ k ∈ c.servers, k ∈ (us.foldl CH.update c).servers := by
+      intro us
+      induction us with
+      | nil => intro c _ k hk; exact hk
+      | cons ks rs ih2 =>
+        intro c h k hk
+        have hk1 : k ∈ (c.update ks).servers := by
+          simp only [CH.update]
+          exact (mem_sortStr ks k).mpr (h.1 k hk)
+        exact ih2 (c.update ks) h.2 k hk1
+    rw [List.foldl_cons]
+    rcases ih (c.update keys) hc1 har with h | ⟨s, hn, hm, hv⟩
+    · rcases update_monotone jh hj c hc keys hsub key with h2 | ⟨s, hs, hn, hv⟩
+      · left; rw [h, h2]
+      · right
+        refine ⟨s, hn, ?_, by rw [h, hv]⟩
+        apply grow rest (c.update keys) har
+        simp only [CH.update]
+        exact (mem_sortStr keys s).mpr hs
+    · right
+      refine ⟨s, ?_, hm, hv⟩
+      intro hin
+      apply hn
+      simp only [CH.update]
+      exact (mem_sortStr keys s).mpr (hsub s hin)
+
+/-- from construction: any sequence of pure-addition updates after `NewXClient` -/
+theorem constructed_monotone (jh : Nat → Nat → Nat) (hj : JumpOK jh) (keys : List String) (us : List (List String))
+    (ha : Additive (CH.new keys) us) (key : Nat) :
+    (us.foldl CH.update (CH.new keys)).h.get jh key = (CH.new keys).h.get jh key ∨
+    ∃ s, s ∉ keys ∧ s ∈ (us.foldl CH.update (CH.new keys)).servers ∧
+      (us.foldl CH.update (CH.new keys)).h.get jh key = some s := by
+  rcases updates_monotone jh hj key us (CH.new keys) (inv_new keys) ha with h | ⟨s, hn, hm, hv⟩
+  · left; exact h
+  · right
+    refine ⟨s, ?_, hm, hv⟩
+    intro hin
+    apply hn
+    simp only [CH.new]
+    exact (mem_sortStr keys s).mpr hin
+
+
+/-- …and from ANY reachable state – construction followed by arbitrary updates, removals included
+    (holes in the loose holder, swapped compact entries) – a pure-addition update is monotone -/
+theorem reachable_update_monotone (jh : Nat → Nat → Nat) (hj : JumpOK jh) (keys : List String) (us : List (List String))
+    (more : List String) (hsub : ∀ k ∈ (us.foldl CH.update (CH.new keys)).servers, k ∈ more) (key : Nat) :
+    ((us.foldl CH.update (CH.new keys)).update more).h.get jh key = (us.foldl CH.update (CH.new keys)).h.get jh key ∨
+    ∃ s ∈ more, s ∉ (us.foldl CH.update (CH.new keys)).servers ∧
+      ((us.foldl CH.update (CH.new keys)).update more).h.get jh key = some s := by
+  have g := chgood_run keys us
+  exact update_monotone jh hj _ ⟨g.wf, g.has⟩ more hsub key
+
+/-- non-vacuity: `n ↦ key % n`-style toy hash does NOT satisfy the contract, the identity-on-last one does:
+    `jh key n = if key % 2 = 0 then 0 else n - 1` keeps bucket 0 or moves to the new bucket -/
+example : JumpOK (fun key n => if key % 2 = 0 then 0 else n - 1) := by
+  intro key n
+  dsimp only
+  constructor
+  · intro h; split <;> omega
+  · split
+    · left; rfl
+    · right; omega
+
+example : Additive (CH.new ["b", "a"]) [["a", "b", "c"], ["d", "c", "b", "a"]] := by
+  refine ⟨?_, ?_, trivial⟩
+  · intro k hk
+    have : k = "a" ∨ k = "b" := by simpa [CH.new, sortStr, insertStr] using hk
+    rcases this with rfl | rfl <;> simp
+  · intro k hk
+    have : k = "a" ∨ k = "b" ∨ k = "c" := by simpa [CH.new, CH.update, sortStr, insertStr] using hk
+    rcases this with rfl | rfl | rfl <;> simp
 
 /-- Regression witness (pre-fix behaviour, D21): adding in enumeration order makes the slot
     assignment – hence the mapping – depend on the order. -/
